@@ -230,9 +230,12 @@ UNDEF = ("u",)
 class Term:
     """builds the canonical result of one function"""
 
-    def __init__(self, mod, fname, store):
+    def __init__(self, mod, fname, store, depth=0, stack=()):
         self.S = store
         self.mod = mod
+        self.depth = depth
+        self.stack = stack + (fname,)
+        self.bind = {}                                 # parameter name -> value (a callee evaluated in place)
         self.c = E1.Canon(mod, fname, {})          # reuse the block / definition parser
         self.mod_head = mod.body(self.c.f)[0]
         self.paths = 0
@@ -762,6 +765,8 @@ class Term:
     # ---- instructions -----------------------------------------------------------
     def val(self, tok, ty, env):
         if tok[0] == "%":
+            if tok in self.bind:
+                return self.bind[tok]
             if tok in self.arg_ty:
                 i, aty = self.arg_ty[tok]
                 if aty == "i1":
@@ -1012,6 +1017,42 @@ class Term:
             return self.lift("ptr", [self.val(ops[0], "ptr", env)], lambda q: S.mk("gep", "ptr", shape, q))
         raise Unsupported("instruction " + rhs.split(" ", 1)[0])
 
+    def inlinable(self, callee):
+        callee = callee.strip('"')
+        f = self.mod.funcs.get(callee)
+        return f is not None and not f.is_decl and self.depth < 5 and callee not in self.stack
+
+    def call_inline(self, mc, env):
+        """-> (panic guard, returned value) of a call to a function defined in this module, by evaluating its body
+        with the argument values bound to its parameters"""
+        _rty, callee, args = mc.groups()
+        callee = callee.strip('"')
+        vals = []
+        for a in E1._split_top(args):
+            a = a.strip()
+            if not a:
+                continue
+            ty, tok = a.rsplit(" ", 1)
+            ty = ty.strip()
+            if ty == "ptr" and tok[0] == "%" and self.sret_offset(tok, env) is not None:
+                raise Unsupported("sret pointer passed on")
+            vals.append(self.val(tok, ty, env))
+        sub = Term(self.mod, callee, self.S, self.depth + 1, self.stack)
+        sub.flags = self.flags
+        if re.search(r'\(\s*ptr[^,)]*\bsret\(', sub.mod_head):
+            raise Unsupported("callee returns through sret")
+        if len(sub.arg_ty) != len(vals):
+            raise Unsupported("call arity")
+        for name, (i, _aty) in sub.arg_ty.items():
+            sub.bind[name] = vals[i]
+        sub.sret = None
+        sub.paths = self.paths
+        pn, r = sub.block(sub.c.order[0], None, {}, {})
+        self.paths = sub.paths
+        if r[0] == "bot":
+            r = UNDEF
+        return pn, r
+
     def _b(self, v):
         if v[0] == "b":
             return v[1]
@@ -1080,11 +1121,25 @@ class Term:
             env.update(new)
         ins = self.c.blocks[b]
         diverges = False
+        pn_calls = [0]
+
+        def fin(r):
+            return (self.S.b_or(pn_calls[0], r[0]), r[1]) if pn_calls[0] else r
         for s in ins[:-1]:
             rs = _strip(s)
             m = re.match(r'^(%"[^"]+"|%[\w.$-]+) = (.*)$', rs)
             if m:
                 kw = m.group(2).split(" ", 1)[0]
+                if kw in ("call", "tail", "notail", "musttail"):
+                    mc = RE_CALL.match(m.group(2))
+                    if mc and not mc.group(2).startswith(E1.PURE_CALLS + E1.IGNORED_CALLS) and self.inlinable(mc.group(2)):
+                        # a function of this module that LLVM left out of line: evaluated in place, so that the
+                        # comparison does not depend on the inliner's decisions
+                        pnc, v = self.call_inline(mc, env)
+                        env = dict(env)
+                        env[m.group(1)] = v
+                        pn_calls[0] = self.S.b_or(pn_calls[0], pnc)
+                        continue
                 if kw == "load":
                     ml = RE_LOAD.match(m.group(2))
                     if ml and ml.group(2)[0] == "%" and self.sret_offset(ml.group(2), env) is not None:
@@ -1121,31 +1176,31 @@ class Term:
             raise Unsupported("side effect: " + rs.split(" ", 1)[0])
         term = _strip(ins[-1]) if ins else "unreachable"
         if term == "unreachable":
-            return (1 if diverges else 0, ("bot",))
+            return fin((1 if diverges else 0, ("bot",)))
         if diverges:
             raise Unsupported("call to a diverging function that returns")
         if term == "ret void":
-            return (0, ("m", tuple(sorted(mem.items()))))
+            return fin((0, ("m", tuple(sorted(mem.items())))))
         if term.startswith("ret "):
             ty, tok = term[4:].rsplit(" ", 1)
             v = self.val(tok, ty.strip(), env)
             if mem:
-                return (0, ("t", (v, ("m", tuple(sorted(mem.items()))))))
-            return (0, v)
+                return fin((0, ("t", (v, ("m", tuple(sorted(mem.items())))))))
+            return fin((0, v))
         m = re.match(r'^br label (%"[^"]+"|%[\w.$-]+)$', term)
         if m:
-            return self.block(m.group(1)[1:].strip('"'), b, env, mem)
+            return fin(self.block(m.group(1)[1:].strip('"'), b, env, mem))
         m = re.match(r'^br i1 ' + VAL + r', label (%"[^"]+"|%[\w.$-]+), label (%"[^"]+"|%[\w.$-]+)$', term)
         if m:
             c = self._b(self.val(m.group(1), "i1", env))
             t, f = m.group(2)[1:].strip('"'), m.group(3)[1:].strip('"')
             if c == 1:
-                return self.block(t, b, env, mem)
+                return fin(self.block(t, b, env, mem))
             if c == 0:
-                return self.block(f, b, env, mem)
+                return fin(self.block(f, b, env, mem))
             x = self.block(t, b, dict(env), mem)
             y = self.block(f, b, dict(env), mem)
-            return self.ite_r(c, x, y)
+            return fin(self.ite_r(c, x, y))
         if term.startswith("switch "):
             m = re.match(r'^switch (i\d+) ' + VAL + r', label (%"[^"]+"|%[\w.$-]+) \[(.*)\]$', term)
             if not m:
@@ -1161,7 +1216,7 @@ class Term:
                     continue
                 x = self.block(lab[1:].strip('"'), b, dict(env), mem)
                 r = self.ite_r(c, x, r)
-            return r
+            return fin(r)
         raise Unsupported("terminator " + term.split(" ", 1)[0])
 
 
